@@ -32,6 +32,18 @@ fn main() {
         usage();
     }
     match args[1].as_str() {
+        "capprobe" => {
+            // child of the C14 capacity probes: `fvh capprobe <how> <c>`
+            let how = args.get(2).cloned().unwrap_or_default();
+            let c: usize = args.get(3).and_then(|s| s.parse().ok()).unwrap_or(0);
+            std::panic::set_hook(Box::new(|_| {}));
+            fvh::alloc::BIG_TRAP.store(true, std::sync::atomic::Ordering::SeqCst);
+            let r = std::panic::catch_unwind(|| fvh::checks::seqchecks::capprobe_child(&how, c));
+            match r {
+                Ok(n) => println!("LEN {}", n),
+                Err(_) => println!("PANIC"),
+            }
+        }
         "list" => {
             for p in checks::all() {
                 println!("{}", p.id);
